@@ -62,7 +62,9 @@ func (l *limitReadCloser) Read(p []byte) (n int, err error) {
 		if l.N == -1 {
 			n--
 		}
-		if err == nil {
+		// The source may hand over the byte past the limit together with io.EOF:
+		// that is still a stream that is too large, not a complete one
+		if err == nil || err == io.EOF {
 			err = ErrStreamTooLarge
 		}
 		if !l.closed {
